@@ -8,6 +8,6 @@ one() {
   echo "$n: ${out:-MISSED}"
 }
 if [ "$1" = "--one" ]; then one "$2"; exit; fi
-snap=$(mktemp /tmp/verifsa.XXXXXX); cp bin/verifsa $snap; export VERIFSA=$snap   # later rebuilds must not disturb a running matrix
+snap=$(mktemp /tmp/verifsa.XXXXXX); cp bin/verifsa $snap; chmod +x $snap; export VERIFSA=$snap   # later rebuilds must not disturb a running matrix
 ls -d seeded/${1:-C*-*}/ | xargs -P ${PAR:-5} -n 1 tools/matrix.sh --one | sort
 rm -f $snap
